@@ -10,6 +10,8 @@ writers (`Circuit.abort` and the `except` clause of `run_forever`) in the order 
 import EdzedModel.ErrorReg
 import EdzedProofs.ErrorReg
 import EdzedModel.Gen.TranslatedSim
+import EdzedModel.Gen.Translated
+import EdzedProofs.ErrorRegTie
 
 namespace Edzed.ErrorReg
 
@@ -272,5 +274,499 @@ theorem translated_abort_records_error_first (s : St) :
     abortView s = [.ret none] ∨ abortView s = [.setError] ∨ abortView s = [.setError, .cancelTask] := by
   unfold abortView abortActs
   cases s.error <;> cases hp : s.phase <;> simp
+
+/-! ### the translation tie: `_check_started`, `shutdown`, `wait_init`, `run()`, its SIGTERM handler, and the
+    error-recording skeleton of `run_forever`
+
+The programs of Gen/TranslatedErrReg.lean (and `run_forever` of Gen/TranslatedLifecycle.lean) are regenerated from
+the current Python source on every run; their primitives are instantiated with the model's operations in
+EdzedProofs/ErrorRegTie.lean.  `env k` is what the rest of the world does to the model state while the
+coroutine is suspended at its k-th `await`: an ARBITRARY function -- the theorems hold for every environment.
+`TS` = the model state `st` plus what the entry points touch outside it (the deliveries to `abort`, the log of
+awaits with the SIGTERM-handler flag, `_init_done`, the locals of run_forever). -/
+section ErrRegTie
+open Edzed.ErrorRegTie Edzed.Gen.TrD
+open Edzed.Gen
+
+/-- `Circuit.is_ready()` (translated) IS the model's `St.ready` -- in particular it is false as soon as an error
+    is recorded, also while the simulation task is still cleaning up (it follows the error, not the task) -/
+theorem translated_errreg_is_ready_follows_error (s : St) :
+    Gen.Tr.isReady (if s.phase = .notStarted then none else some ()) (s.error.map fun _ => ()) = s.ready ∧
+    (s.error.isSome → Gen.Tr.isReady (if s.phase = .notStarted then none else some ()) (s.error.map fun _ => ()) = false) := by
+  unfold Gen.Tr.isReady St.ready
+  cases s.phase <;> cases s.error <;> simp
+
+/-- `_check_started()`: nothing when the simulation task exists; otherwise one yield, and EdzedInvalidState
+    if it still does not exist afterwards -/
+theorem translated_errreg_check_started_is_model (env : Nat → St → St) (s : TS) :
+    (callFn (TrE.checkStarted (csPrims env)) : M TS PyExc Unit Unit) s =
+      if s.st.phase != .notStarted then (s, .next ())
+      else if (s.await env .yield).st.phase != .notStarted then (s.await env .yield, .next ())
+      else (s.await env .yield, .raise .invalidState) := by
+  unfold TrE.checkStarted callFn
+  by_cases h : s.st.phase = .notStarted
+  · by_cases h2 : (s.await env .yield).st.phase = .notStarted <;>
+      simp [h, h2, bind_apply, get_apply, pure_apply, raise_apply, ret_apply]
+  · simp [h, bind_apply, get_apply, pure_apply, ret_apply]
+
+theorem translated_errreg_check_started_passes (env : Nat → St → St) (s : TS) (h : s.st.phase ≠ .notStarted) :
+    (callFn (TrE.checkStarted (csPrims env)) : M TS PyExc Unit Unit) s = (s, .next ()) := by
+  rw [translated_errreg_check_started_is_model]; simp [h]
+
+theorem translated_errreg_check_started_refuses (env : Nat → St → St) (s : TS) (h : s.st.phase = .notStarted)
+    (h2 : (env s.log.length s.st).phase = .notStarted) :
+    (callFn (TrE.checkStarted (csPrims env)) : M TS PyExc Unit Unit) s = (s.await env .yield, .raise .invalidState) := by
+  rw [translated_errreg_check_started_is_model]; simp [h, h2, TS.await]
+
+/-- `shutdown()` of a started simulation IS the model's `shut` wake followed by `shutdownRaises`: up to
+    `await self._simtask` exactly `abort(CancelledError('shutdown'))` is delivered (the model's `wakeStep … shut`:
+    state and delivery log), and when the simulation task has ended -- whatever happened meanwhile -- the call
+    returns iff the recorded error is a cancellation, else re-raises the recorded error -/
+theorem translated_errreg_shutdown_is_model (env : Nat → St → St) (s : TS) (h : s.st.phase ≠ .notStarted) :
+    TrE.shutdown (sdPrims env false) s =
+      let s1 : TS := { s with st := (wakeStep s.st .shut).1, dels := s.dels ++ (wakeStep s.st .shut).2 }
+      (s1.await env .simtask,
+       match shutdownRaises (s1.await env .simtask).st with
+       | some e => .raise (.err e)
+       | none => .next ()) := by
+  unfold TrE.shutdown
+  simp [h, translated_errreg_check_started_passes, bind_apply, get_apply, pure_apply, tryExcept_apply, abortP, awaitSim, wakeStep,
+    runForeverRaises, shutdownRaises]
+  cases he : ((TS.await env Aw.simtask { s with st := s.st.abort (Err.cancelled 1), dels := s.dels ++ [Err.cancelled 1] }).st.error) with
+  | none => simp
+  | some e => cases hc : e.isCancel <;> simp [hc, pure_apply, raise_apply]
+
+/-- shutdown() of a simulation that was never started (and does not start during the yield either):
+    EdzedInvalidState, nothing is delivered -- the model's `shut` wake in phase `notStarted` changes nothing -/
+theorem translated_errreg_shutdown_not_started (env : Nat → St → St) (cur : Bool) (s : TS)
+    (h : s.st.phase = .notStarted) (h2 : (env s.log.length s.st).phase = .notStarted) :
+    TrE.shutdown (sdPrims env cur) s = (s.await env .yield, .raise .invalidState) ∧
+    wakeStep s.st .shut = (s.st, []) := by
+  unfold TrE.shutdown
+  simp [h, h2, translated_errreg_check_started_refuses, bind_apply, wakeStep]
+
+/-- shutdown() called from the simulation task itself is refused BEFORE anything is delivered -/
+theorem translated_errreg_shutdown_refused_in_simtask (env : Nat → St → St) (s : TS) (h : s.st.phase ≠ .notStarted) :
+    TrE.shutdown (sdPrims env true) s = (s, .raise .invalidState) := by
+  unfold TrE.shutdown
+  simp [h, translated_errreg_check_started_passes, bind_apply, get_apply, raise_apply]
+
+/-- `wait_init()` on a started simulation: AttributeError when `_init_done` does not exist (the helper task is
+    created OUTSIDE the `try`, nothing is awaited); otherwise it waits once, cancels the helper task in any
+    case, and raises EdzedInvalidState iff the simulation task is done or an error is recorded by then -/
+theorem translated_errreg_wait_init_is_model (env : Nat → St → St) (s : TS) (h : s.st.phase ≠ .notStarted) :
+    TrE.waitInit (wiPrims env) s =
+      match s.initDone with
+      | none => (s, .raise .attributeError)
+      | some _ =>
+        let s1 : TS := { s.await env .waitInit with waiter := some false }
+        (s1, if s1.st.phase == .done || s1.st.error.isSome then .raise .invalidState else .next ()) := by
+  unfold TrE.waitInit
+  cases hi : s.initDone with
+  | none => simp [h, hi, translated_errreg_check_started_passes, bind_apply]
+  | some b =>
+    simp [h, hi, translated_errreg_check_started_passes, bind_apply, get_apply, pure_apply, raise_apply, tryFinally_apply, TS.await]
+    by_cases hd : (env s.log.length s.st).phase = .done
+    · cases he : (env s.log.length s.st).error with
+      | none => simp [hd, he, bind_apply, get_apply, pure_apply, raise_apply]
+      | some e => cases hc : e.isCancel <;> simp [hd, he, hc, bind_apply, get_apply, pure_apply, raise_apply]
+    · cases he : (env s.log.length s.st).error <;> simp [hd, he, bind_apply, get_apply, pure_apply, raise_apply]
+
+/-- … hence, with the invariant `Stopped` (a finished simulation has an error): wait_init() returns normally
+    iff the circuit is ready when the wait is over -/
+theorem translated_errreg_wait_init_returns_iff_ready (env : Nat → St → St) (s : TS) (b : Bool)
+    (h : s.st.phase ≠ .notStarted) (hi : s.initDone = some b)
+    (hn : (env s.log.length s.st).phase ≠ .notStarted) (hs : Stopped (env s.log.length s.st)) :
+    ((TrE.waitInit (wiPrims env) s).2 = .next ()) ↔ (env s.log.length s.st).ready = true := by
+  rw [translated_errreg_wait_init_is_model env s h, hi]
+  simp only [TS.await, St.ready]
+  by_cases hd : (env s.log.length s.st).phase = .done
+  · have := hs (Or.inr (Or.inr hd))
+    by_cases he : (env s.log.length s.st).error = none
+    · simp [he] at this
+    · simp [hd, he]
+  · by_cases he : (env s.log.length s.st).error = none
+    · simp [hd, he, hn]
+    · have : (env s.log.length s.st).error.isSome = true := by
+        cases h' : (env s.log.length s.st).error <;> simp_all
+      simp [hd, he, hn, this]
+
+/-- `_TerminatingSignal.__enter__`: without a signal number nothing; else the old handler is saved FIRST (the value
+    saved is the one from before the installation), then the new one installed -/
+theorem translated_errreg_sig_enter_is_model (sc : Bool) (s : TS) :
+    TrE.sigEnter (sgPrims sc) s =
+      if s.signo then ({ s with saved := some s.handler, handler := true }, .next ()) else (s, .ret false) := by
+  unfold TrE.sigEnter
+  cases h : s.signo <;> simp [h, bind_apply, get_apply, pure_apply, ret_apply]
+
+/-- `__exit__` restores the saved handler and returns a FALSE value on every path: an exception of the `with`
+    body propagates (what `M.withCtx` assumes in the translated `run()`) -/
+theorem translated_errreg_sig_exit_returns_false (sc : Bool) (s : TS) (b : Bool) (hs : s.saved = some b) :
+    TrE.sigExit (sgPrims sc) s =
+      (if s.signo then { s with handler := b } else s, .ret false) := by
+  unfold TrE.sigExit
+  cases h : s.signo <;> simp [h, hs, bind_apply, get_apply, ret_apply, pure_apply]
+
+/-- … and without a signal number it touches nothing -/
+theorem translated_errreg_sig_exit_without_signal (sc : Bool) (s : TS) (hs : s.signo = false) :
+    TrE.sigExit (sgPrims sc) s = (s, .ret false) := by
+  unfold TrE.sigExit
+  simp [hs, bind_apply, get_apply, ret_apply, pure_apply]
+
+/-- the actions of the signal handler -/
+theorem translated_errreg_sig_handler_acts (sc : Bool) (s : TS) :
+    TrE.sigHandler (sgPrims sc) s =
+      ({ s with st := (step s.st .sigterm).1, sched := s.sched ++ [.cancelled 4], chained := s.chained || sc }, .next ()) := by
+  unfold TrE.sigHandler
+  cases sc <;> simp [bind_apply, get_apply, pure_apply, step]
+
+
+/-- the "stop everything" loop over supporting tasks: each one that is not done is cancelled; the model state is untouched -/
+theorem translated_errreg_run_stop_loop_cancels_unfinished (env : Nat → St → St) : ∀ (l : List Nat) (s : TS),
+    TrE.run_for1 (runPrims env) (l.map Tk.sup) s =
+      ({ s with cancelled := s.cancelled ++ (l.filter fun i => !(s.st.supDone.any (·.1 == i))).map Tk.sup }, .next ()) := by
+  intro l
+  induction l with
+  | nil => intro s; simp [TrE.run_for1, pure_apply]
+  | cons i l ih =>
+    intro s
+    simp only [List.map_cons]
+    unfold TrE.run_for1
+    cases hd : s.st.supDone.any (·.1 == i) <;>
+      simp [hd, bind_apply, get_apply, taskDone, ih, List.filter_cons]
+
+
+/-- the collection loop over supporting tasks #k … #k+m-1: the first failure (in the order of the arguments)
+    is kept unless an error was collected before -/
+theorem translated_errreg_run_collect_supporting (env : Nat → St → St) (n : Nat) : ∀ (m k : Nat) (re : Option PyExc) (s : TS), k + m ≤ n →
+    TrE.run_for2 (runPrims env) (coros n) ((List.range' k m).map fun (i : Nat) => ((i : Int), Tk.sup i)) re s =
+      (s, .next (orElseSup re ((List.range' k m).findSome? (supFailure s.st.supDone)))) := by
+  intro m
+  induction m with
+  | zero => intro k re s _; cases re <;> simp [TrE.run_for2, pure_apply, orElseSup]
+  | succ m ih =>
+    intro k re s hk
+    simp only [List.range'_succ, List.map_cons]
+    unfold TrE.run_for2
+    have hlen : (coros n).length = n := by simp [coros]
+    have h1 : -(n : Int) ≤ (k : Int) ∧ (k : Int) < (n : Int) := by omega
+    have h2 : ¬ ((k : Int) < 0) := by omega
+    cases hf : supFailure s.st.supDone k with
+    | some id =>
+      cases re <;>
+        simp [hf, bind_apply, pure_apply, raise_apply, tryExcept_apply, hlen, h1, h2, ih (k + 1) _ s (by omega),
+          orElseSup, List.findSome?_cons, Err.isCancel]
+    | none =>
+      cases hd : s.st.supDone.any (·.1 == k) <;> cases re <;>
+        simp [hf, hd, bind_apply, pure_apply, raise_apply, tryExcept_apply, ih (k + 1) _ s (by omega),
+          orElseSup, List.findSome?_cons, Err.isCancel]
+
+
+/-- the whole collection loop of run(): the simulation task first, then the supporting tasks in order -/
+theorem translated_errreg_run_collect_is_runRaises (env : Nat → St → St) (n : Nat) (s : TS) :
+    TrE.run_for2 (runPrims env) (coros n) (((-1 : Int), Tk.sim) :: (List.range' 0 n).map fun (i : Nat) => ((i : Int), Tk.sup i)) none s =
+      (s.await env .simtask, .next ((runRaises (s.await env .simtask).st n).map PyExc.err)) := by
+  unfold TrE.run_for2
+  have hc := fun re => translated_errreg_run_collect_supporting env n n 0 re (s.await env .simtask) (by omega)
+  cases he : (s.await env .simtask).st.error with
+  | none =>
+    simp [bind_apply, pure_apply, tryExcept_apply, awaitSim, runForeverRaises, he, hc, orElseSup, runRaises, shutdownRaises,
+      firstSupError_eq, List.range_eq_range']
+    congr 1; funext i; simp only [Function.comp_apply]; cases supFailure (TS.await env Aw.simtask s).st.supDone i <;> rfl
+  | some e =>
+    cases hk : e.isCancel <;>
+    simp [bind_apply, pure_apply, tryExcept_apply, awaitSim, runForeverRaises, he, hk, hc, orElseSup, runRaises, shutdownRaises,
+      firstSupError_eq, List.range_eq_range']
+    congr 1; funext i; simp only [Function.comp_apply]; cases supFailure (TS.await env Aw.simtask s).st.supDone i <;> rfl
+
+
+/-- the signal handler IS the model's `sigterm`: it queues `abort(CancelledError(<signal message>))` (the model's
+    wake entry `sig`, which delivers exactly that error) and chains to the previous handler iff it is callable -/
+theorem translated_errreg_sig_handler_is_sigterm (sc : Bool) (s : TS) :
+    TrE.sigHandler (sgPrims sc) s =
+      ({ s with st := (step s.st .sigterm).1, sched := s.sched ++ [.cancelled 4], chained := s.chained || sc },
+       .next ()) ∧
+    (wakeStep (step s.st .sigterm).1 .sig).2 = [.cancelled 4] := by
+  refine ⟨translated_errreg_sig_handler_acts sc s, ?_⟩
+  simp [wakeStep]
+
+/-- `run(*coroutines)` with n ≥ 1 supporting coroutines IS the model's account of it (`runModel`): the
+    SIGTERM handler is installed (iff `catch_sigterm`) while run() awaits inside the `with` and removed before
+    the tasks are collected; after `asyncio.wait` every UNFINISHED SUPPORTING task is cancelled -- the simulation
+    task at position 0 is not (the model's `runWaiter`) --, after one yield `abort(CancelledError('shutdown'))`
+    is delivered iff the simulation task is not done (the model's `runAbort`: state and delivery log), and what
+    run() raises at the end is the model's `runRaises`: the simulation's error unless it is a cancellation,
+    else the error of the first failing supporting task in the order of the arguments, else nothing -/
+theorem translated_errreg_run_is_model (env : Nat → St → St) (n : Nat) (c : Bool) (s0 : St)
+    (hn : 0 < n) (h1 : (env 0 s0).phase ≠ .done) :
+    TrE.run (runPrims env) (coros n) c { st := s0 } =
+      ({ st := (runModel env s0).1
+         dels := (runModel env s0).2
+         log := [(.yield, c), (.wait, c), (.yield, c), (.simtask, false)]
+         signo := c, saved := (if c then some false else none), handler := false, waited := true
+         cancelled := ((List.range n).filter fun i => !((env 1 (env 0 s0)).supDone.any (·.1 == i))).map Tk.sup },
+       outcomeOf (runRaises (runModel env s0).1 n)) := by
+  have hlen : (coros n).length = n := by simp [coros]
+  have hne : (coros n).isEmpty = false := by cases n with | zero => omega | succ n => simp [coros, List.replicate_succ]
+  have henum : TrE.enumFrom (-1 : Int) (Tk.sim :: (List.range n).map Tk.sup) =
+      ((-1 : Int), Tk.sim) :: (List.range' 0 n).map fun (i : Nat) => ((i : Int), Tk.sup i) := by
+    rw [TrE.enumFrom, List.range_eq_range']
+    exact congrArg _ (enumFrom_sups n 0)
+  unfold TrE.run
+  by_cases hd : (env 2 ((env 1 (env 0 s0)).addWake .runAbort)).phase = .done <;> cases c <;>
+  simp [withCtx_apply, bind_apply, tryFinally_apply, callFn, translated_errreg_sig_enter_is_model, translated_errreg_sig_exit_returns_false, translated_errreg_sig_exit_without_signal, hne, hlen, pure_apply, get_apply,
+    tryExcept_apply, taskDone, h1, hd, TS.await, translated_errreg_run_stop_loop_cancels_unfinished, henum, abortP, runModel, wakeStep, translated_errreg_run_collect_is_runRaises]
+  all_goals (generalize runRaises _ n = r; cases r <;> rfl)
+
+/-- run() never cancels the simulation task directly (it would abort the clean-up) -/
+theorem translated_errreg_run_skips_simtask (env : Nat → St → St) (n : Nat) (c : Bool) (s0 : St)
+    (hn : 0 < n) (h1 : (env 0 s0).phase ≠ .done) :
+    Tk.sim ∉ (TrE.run (runPrims env) (coros n) c { st := s0 }).1.cancelled := by
+  rw [translated_errreg_run_is_model env n c s0 hn h1]
+  simp
+
+/-- run() without supporting coroutines: run_forever is awaited in the caller's own task, a cancellation is a
+    normal end (`return`), a real error propagates: the model's `runRaises … 0` -/
+theorem translated_errreg_run_without_coroutines (env : Nat → St → St) (c : Bool) (s0 : St) :
+    TrE.run (runPrims env) [] c { st := s0 } =
+      ({ st := env 0 s0, log := [(.runForever, c)], signo := c, saved := (if c then some false else none), handler := false },
+       match runRaises (env 0 s0) 0 with
+       | some e => .raise (.err e)
+       | none => .ret ()) := by
+  unfold TrE.run
+  cases he : (env 0 s0).error with
+  | none =>
+    cases c <;>
+    simp [withCtx_apply, bind_apply, tryFinally_apply, callFn, translated_errreg_sig_enter_is_model, translated_errreg_sig_exit_returns_false, translated_errreg_sig_exit_without_signal, pure_apply, get_apply,
+      tryExcept_apply, TS.await, awaitSim, runForeverRaises, he, ret_apply, runRaises, shutdownRaises, firstSupError]
+  | some e =>
+    cases hk : e.isCancel <;> cases c <;>
+    simp [withCtx_apply, bind_apply, tryFinally_apply, callFn, translated_errreg_sig_enter_is_model, translated_errreg_sig_exit_returns_false, translated_errreg_sig_exit_without_signal, pure_apply, get_apply,
+      tryExcept_apply, TS.await, awaitSim, runForeverRaises, he, hk, ret_apply, raise_apply, runRaises, shutdownRaises, firstSupError]
+
+/-- the simulation task is already finished after the first yield: its error is re-raised (a cancellation:
+    RuntimeError), no supporting task is ever created, the SIGTERM handler is removed -/
+theorem translated_errreg_run_simtask_dead_early (env : Nat → St → St) (n : Nat) (c : Bool) (s0 : St)
+    (hn : 0 < n) (h1 : (env 0 s0).phase = .done) :
+    TrE.run (runPrims env) (coros n) c { st := s0 } =
+      ({ st := env 0 s0, log := [(.yield, c)], signo := c, saved := (if c then some false else none), handler := false },
+       match shutdownRaises (env 0 s0) with
+       | some e => .raise (.err e)
+       | none => .raise .runtimeError) := by
+  have hne : (coros n).isEmpty = false := by cases n with | zero => omega | succ n => simp [coros, List.replicate_succ]
+  unfold TrE.run
+  cases he : (env 0 s0).error with
+  | none =>
+    cases c <;>
+    simp [withCtx_apply, bind_apply, tryFinally_apply, callFn, translated_errreg_sig_enter_is_model, translated_errreg_sig_exit_returns_false, translated_errreg_sig_exit_without_signal, pure_apply, get_apply, hne,
+      tryExcept_apply, TS.await, taskDone, h1, runForeverRaises, he, raise_apply, shutdownRaises]
+  | some e =>
+    cases hk : e.isCancel <;> cases c <;>
+    simp [withCtx_apply, bind_apply, tryFinally_apply, callFn, translated_errreg_sig_enter_is_model, translated_errreg_sig_exit_returns_false, translated_errreg_sig_exit_without_signal, pure_apply, get_apply, hne,
+      tryExcept_apply, TS.await, taskDone, h1, runForeverRaises, he, hk, raise_apply, shutdownRaises]
+
+/-- abort() before the start: the translated `run_forever` still registers the task (`_simtask`), raises the
+    recorded error INSIDE its try block (so that it is the task's own error and `shutdown()` re-raises it), starts
+    no block, never creates `_init_done`, never simulates -- the model's `start` with an error already recorded,
+    then the `sleep(0)` step -- and raises that error -/
+theorem translated_errreg_run_forever_abort_before_start (sc : RfScript) (s0 : St) (e0 : Err)
+    (hp : s0.phase = .notStarted) (he : s0.error = some e0)
+    (hy : ∀ s, (s.error.isSome → (sc.envYield s).error = s.error) ∧ (sc.envYield s).phase = s.phase) :
+    TrL.runForever (erfPrims sc) { st := s0 } =
+      ({ st := (wakeStep (sc.envYield (step s0 (.start sc.initErr)).1) .sim).1 }, .raise (.err e0)) := by
+  rw [start_pre_error s0 _ e0 hp he]
+  have hye := fun s h => (hy s).1 h
+  have hyp := fun s => (hy s).2
+  have hwe := fun s h => (wake_sleep0 s h).1
+  unfold TrL.runForever
+  by_cases hm : (sc.envYield ({ s0 with phase := .tryBlock, error := some e0, runWaiting := s0.runMode } : St).leaveTry).mustCancel = true <;>
+  cases hk : e0.isCancel <;>
+  simp [hp, he, hk, hm, bind_apply, get_apply, pure_apply, raise_apply, tryExcept_apply, hye, hyp, hwe]
+
+/-
+Full statement: the same with the start-up split into its awaits (`envInit` arbitrary), for an empty circuit
+(EdzedCircuitError is not an `Err` of the model) and with failing start()/async initialisation.  The model's
+`start` is ONE step, so the tie fixes `envInit = id`; the hypotheses on the environments say what every
+history of the model satisfies between two steps of the simulation task: it does not move the task's phase
+and never replaces a recorded error.
+-/
+/-- `run_forever` IS the model's account of the simulation task (`rfModel` = `start`, then the `sim` wake that
+    leaves the try block, then the `sim` wake at the `sleep(0)`, then `finish`): the except clause records the
+    exception that left the try block iff no error was recorded (`St.caught`), one pending cancellation is
+    swallowed at the `sleep(0)`, and the task ends by raising the recorded error (`runForeverRaises`) -/
+theorem translated_errreg_run_forever_is_model_partial (sc : RfScript) (s0 : St)
+    (hp : s0.phase = .notStarted) (he : s0.error = none) (hi : sc.envInit = id)
+    (hs : ∀ s, (sc.envSim s).phase = s.phase)
+    (ht : sc.initErr = none → (thrownAt (sc.envSim (step s0 (.start none)).1)).2.isSome = true)
+    (hy : ∀ s, (s.error.isSome → (sc.envYield s).error = s.error) ∧ (sc.envYield s).phase = s.phase)
+    (hz : ∀ s, (s.error.isSome → (sc.envStop s).error = s.error) ∧ (sc.envStop s).phase = s.phase) :
+    TrL.runForever (erfPrims sc) { st := s0 } =
+      ({ st := rfModel sc s0, started := [0], startOk := true, initDone := some sc.initErr.isNone,
+         simulated := sc.initErr.isNone },
+       match runForeverRaises (rfModel sc s0) with
+       | some e => .raise (.err e)
+       | none => .raise .typeError) ∧
+    (runForeverRaises (rfModel sc s0)).isSome = true := by
+  have hye := fun s h => (hy s).1 h
+  have hyp := fun s => (hy s).2
+  have hze := fun s h => (hz s).1 h
+  have hzp := fun s => (hz s).2
+  have hwe := fun s h => (wake_sleep0 s h).1
+  have hwp := fun s h => (wake_sleep0 s h).2
+  have hfe := fun s h => finish_cleanup s h
+  cases hie : sc.initErr with
+  | some id =>
+    unfold rfModel TrL.runForever
+    simp only [hie]
+    rw [start_init_error s0 id hp he]
+    by_cases hm : (sc.envYield ({ s0 with phase := .tryBlock, error := some (.exc id), runWaiting := s0.runMode } : St).leaveTry).mustCancel = true <;>
+    by_cases hc : (sc.envYield ({ s0 with phase := .tryBlock, error := some (.exc id), runWaiting := s0.runMode } : St).leaveTry).slowCleanup = true <;>
+    simp [hp, he, hi, hm, hc, St.caught, runForeverRaises, bind_apply, get_apply, pure_apply, raise_apply, tryExcept_apply,
+      TrL.runForever_for1, hye, hyp, hze, hzp, hwe, hwp, hfe]
+  | none =>
+    have ht' := ht hie
+    rw [start_ok s0 hp he] at ht'
+    unfold rfModel TrL.runForever
+    simp only [hie]
+    rw [start_ok s0 hp he]
+    have hS : ({ s0 with phase := .tryBlock, runWaiting := s0.runMode } : St) =
+        { s0 with phase := .tryBlock, error := none, runWaiting := s0.runMode } := by rw [← he]
+    rw [hS] at ht' ⊢
+    have hph : (sc.envSim { s0 with phase := .tryBlock, error := none, runWaiting := s0.runMode }).phase = .tryBlock := by
+      rw [hs]
+    simp only [show (({ s0 with phase := .tryBlock, error := none, runWaiting := s0.runMode } : St).phase == Phase.tryBlock) = true from rfl,
+      if_true, wakeStep_sim_try_eq _ hph]
+    obtain ⟨T, hT⟩ : ∃ T, T = thrownAt (sc.envSim { s0 with phase := .tryBlock, error := none, runWaiting := s0.runMode }) := ⟨_, rfl⟩
+    rw [← hT] at ht' ⊢
+    obtain ⟨T1, T2⟩ := T
+    cases T2 with
+    | none => simp at ht'
+    | some e =>
+      have hT' := hT.symm
+      cases hte : T1.error with
+      | none =>
+        by_cases hm : (sc.envYield ({ T1 with error := some e } : St).leaveTry).mustCancel = true <;>
+        by_cases hc : (sc.envYield ({ T1 with error := some e } : St).leaveTry).slowCleanup = true <;>
+        cases hk : e.isCancel <;>
+        simp [hp, he, hi, hT', hte, hm, hc, hk, St.caught, runForeverRaises, bind_apply, get_apply, pure_apply, raise_apply,
+          tryExcept_apply, TrL.runForever_for1, hye, hyp, hze, hzp, hwe, hwp, hfe]
+      | some e1 =>
+        by_cases hm : (sc.envYield T1.leaveTry).mustCancel = true <;>
+        by_cases hc : (sc.envYield T1.leaveTry).slowCleanup = true <;>
+        cases hk : e.isCancel <;>
+        simp [hp, he, hi, hT', hte, hm, hc, hk, St.caught, runForeverRaises, bind_apply, get_apply, pure_apply, raise_apply,
+          tryExcept_apply, TrL.runForever_for1, hye, hyp, hze, hzp, hwe, hwp, hfe]
+
+/-- a second `run_forever()` is refused before anything else happens: the model's `start` outside `notStarted` -/
+theorem translated_errreg_run_forever_restart_refused (sc : RfScript) (s : TS) (h : s.st.phase ≠ .notStarted) :
+    TrL.runForever (erfPrims sc) s = (s, .raise .invalidState) ∧
+    step s.st (.start sc.initErr) = (s.st, { reply := .invalidState }) := by
+  unfold TrL.runForever
+  by_cases hd : s.st.phase = .done <;>
+    simp [h, hd, step, bind_apply, get_apply, pure_apply, raise_apply]
+
+/-- an error recorded DURING the start-up without an exception reaching run_forever (an abort() whose
+    cancellation was swallowed by a failing init task): the simulation is NOT entered, `_init_done` stays
+    unset, the recorded error is raised after the clean-up -- a simulation with an error never runs -/
+theorem translated_errreg_run_forever_no_simulation_with_error (sc : RfScript) (s0 : St) (e1 : Err)
+    (hp : s0.phase = .notStarted) (he : s0.error = none) (hie : sc.initErr = none)
+    (hi : (sc.envInit { s0 with phase := .tryBlock, error := none, runWaiting := s0.runMode }).error = some e1)
+    (hy : ∀ s, (s.error.isSome → (sc.envYield s).error = s.error) ∧ (sc.envYield s).phase = s.phase)
+    (hz : ∀ s, (s.error.isSome → (sc.envStop s).error = s.error) ∧ (sc.envStop s).phase = s.phase) :
+    ∃ s', TrL.runForever (erfPrims sc) { st := s0 } = (s', .raise (.err e1)) ∧
+      s'.simulated = false ∧ s'.initDone = some false ∧ s'.st.error = some e1 := by
+  have hye := fun s h => (hy s).1 h
+  have hyp := fun s => (hy s).2
+  have hze := fun s h => (hz s).1 h
+  have hzp := fun s => (hz s).2
+  have hwe := fun s h => (wake_sleep0 s h).1
+  have hwp := fun s h => (wake_sleep0 s h).2
+  have hfe := fun s h => finish_cleanup s h
+  unfold TrL.runForever
+  by_cases hm : (sc.envYield (sc.envInit { s0 with phase := .tryBlock, error := none, runWaiting := s0.runMode }).leaveTry).mustCancel = true <;>
+  by_cases hc : (sc.envYield (sc.envInit { s0 with phase := .tryBlock, error := none, runWaiting := s0.runMode }).leaveTry).slowCleanup = true <;>
+  simp [hp, he, hie, hi, hm, hc, bind_apply, get_apply, pure_apply, raise_apply,
+          tryExcept_apply, TrL.runForever_for1, hye, hyp, hze, hzp, hwe, hwp, hfe]
+
+/-- the model's `waitInitReply`, case "an error was recorded before the start" (the recorded observation): the
+    translated run_forever never creates `_init_done`, so the translated `wait_init()` on the failed simulation
+    raises AttributeError (not EdzedInvalidState) -/
+theorem translated_errreg_wait_init_after_abort_before_start (sc : RfScript) (env : Nat → St → St) (s0 : St) (e0 : Err)
+    (hp : s0.phase = .notStarted) (he : s0.error = some e0)
+    (hy : ∀ s, (s.error.isSome → (sc.envYield s).error = s.error) ∧ (sc.envYield s).phase = s.phase) :
+    ∃ s', TrL.runForever (erfPrims sc) { st := s0 } = (s', .raise (.err e0)) ∧ s'.initDone = none ∧
+      TrE.waitInit (wiPrims env) s' = (s', .raise .attributeError) ∧
+      waitInitReply s0 sc.initErr = .attributeError := by
+  refine ⟨_, translated_errreg_run_forever_abort_before_start sc s0 e0 hp he hy, rfl, ?_, by simp [waitInitReply, he]⟩
+  rw [translated_errreg_wait_init_is_model]
+  have hph : (sc.envYield (step s0 (.start sc.initErr)).1).phase = .sleep0 := by
+    rw [(hy _).2, start_pre_error s0 _ e0 hp he]; simp
+  have := (wake_sleep0 _ hph).2
+  simp only [this]
+  split <;> simp
+
+/-- … case "the start-up fails": the translated run_forever ends with the error recorded (`_init_done` exists, unset),
+    and the translated `wait_init()` raises EdzedInvalidState whatever else happens while it waits -/
+theorem translated_errreg_wait_init_after_failed_start (sc : RfScript) (env : Nat → St → St) (s0 : St) (id : Nat)
+    (hp : s0.phase = .notStarted) (he : s0.error = none) (hie : sc.initErr = some id) (hi : sc.envInit = _root_.id)
+    (hs : ∀ s, (sc.envSim s).phase = s.phase)
+    (hy : ∀ s, (s.error.isSome → (sc.envYield s).error = s.error) ∧ (sc.envYield s).phase = s.phase)
+    (hz : ∀ s, (s.error.isSome → (sc.envStop s).error = s.error) ∧ (sc.envStop s).phase = s.phase)
+    (henv : ∀ k s, s.error.isSome → (env k s).error.isSome) :
+    ∃ s', (TrL.runForever (erfPrims sc) { st := s0 }).1 = s' ∧ s'.initDone = some false ∧
+      (TrE.waitInit (wiPrims env) s').2 = .raise .invalidState ∧
+      waitInitReply s0 sc.initErr = .invalidState := by
+  have hm := translated_errreg_run_forever_is_model_partial sc s0 hp he hi hs (by simp [hie]) hy hz
+  have hd := rfModel_done sc s0 hp he hs (by simp [hie]) (fun s => (hy s).2) (fun s => (hz s).2)
+  refine ⟨_, rfl, ?_, ?_, by simp [waitInitReply, he, hie]⟩
+  · rw [hm.1]; simp [hie]
+  · rw [hm.1, translated_errreg_wait_init_is_model _ _ (by simp [hd])]
+    have hsome : (rfModel sc s0).error.isSome = true := hm.2
+    have := henv 0 (rfModel sc s0) hsome
+    simp [hie, TS.await, this]
+
+/-- … case "the start-up succeeds": with `_init_done` present, `wait_init()` returns normally as long as no error
+    is recorded and the task is running when the wait is over -/
+theorem translated_errreg_wait_init_of_running_simulation (env : Nat → St → St) (s : TS) (b : Bool)
+    (h : s.st.phase ≠ .notStarted) (hi : s.initDone = some b)
+    (he : (env s.log.length s.st).error = none) (hd : (env s.log.length s.st).phase ≠ .done) (s0 : St) (h0 : s0.error = none) :
+    (TrE.waitInit (wiPrims env) s).2 = .next () ∧ waitInitReply s0 none = .ok := by
+  rw [translated_errreg_wait_init_is_model env s h, hi]
+  simp [TS.await, he, hd, waitInitReply, h0]
+
+/-- non-vacuity of the hypotheses of `translated_errreg_run_forever_is_model_partial` and
+    `translated_errreg_run_is_model`: a cancellation requested while the circuit is simulated ends run_forever with
+    CancelledError; run() with two supporting coroutines of which #1 fails with exception 7 while the simulation
+    runs: the simulation is stopped with CancelledError('shutdown') and run() raises exception 7 -/
+example :
+    let sc : RfScript := { envSim := fun s => { s with mustCancel := true } }
+    (TrL.runForever (erfPrims sc) { st := {} }).2 = .raise (.err (.cancelled 0)) ∧
+    (rfModel sc {}).phase = .done ∧ (rfModel sc {}).error = some (.cancelled 0) := by
+  intro sc
+  have h := translated_errreg_run_forever_is_model_partial sc {} rfl rfl rfl (fun _ => rfl) (fun _ => rfl)
+    (fun _ => ⟨fun _ => rfl, rfl⟩) (fun _ => ⟨fun _ => rfl, rfl⟩)
+  have hm : rfModel sc {} = { phase := .done, error := some (.cancelled 0), wake := [.sim] } := by rfl
+  rw [h.1, hm]
+  exact ⟨rfl, rfl, rfl⟩
+
+/-- the environment of the second example -/
+def exampleEnv : Nat → St → St := fun k s =>
+  if k = 0 then (step s (.start none)).1                                             -- the task starts
+  else if k = 1 then (step (step s (.supTrigger 1 (some 7))).1 .tick).1              -- coroutine #1 fails
+  else if k = 2 then s
+  else (step (step s .tick).1 .tick).1                                               -- the simulation stops
+
+example :
+    (TrE.run (runPrims exampleEnv) (coros 2) true { st := { runMode := true } }).2 = .raise (.err (.exc 7)) ∧
+    (TrE.run (runPrims exampleEnv) (coros 2) true { st := { runMode := true } }).1.dels = [.cancelled 1] ∧
+    (TrE.run (runPrims exampleEnv) (coros 2) true { st := { runMode := true } }).1.st.error = some (.cancelled 1) := by
+  have h := translated_errreg_run_is_model exampleEnv 2 true { runMode := true } (by decide) (by decide +kernel)
+  have h1 : runRaises (runModel exampleEnv { runMode := true }).1 2 = some (.exc 7) := by decide +kernel
+  have h2 : (runModel exampleEnv { runMode := true }).2 = [.cancelled 1] := by decide +kernel
+  have h3 : (runModel exampleEnv { runMode := true }).1.error = some (.cancelled 1) := by decide +kernel
+  rw [h]
+  exact ⟨by simp only [h1]; rfl, h2, h3⟩
+
+end ErrRegTie
 
 end Edzed.TrTie
